@@ -51,7 +51,7 @@ std::u8string World::spelling(unsigned a, unsigned b)
       case 2: s = u8"v"; s += char8_t('0' + b % 10); break;
       case 3: s = operator_words[b % n_operator]; break;
       case 4:
-         if (b != 255) s = std::u8string(1, char8_t(b));   // every single byte value incl. NUL; 255 -> empty word
+         if (b != 255) s = std::u8string(1, char8_t((a >> 3) % 3 == 0 ? b % 16 : b));   // every single byte value incl. NUL (low control bytes favoured); 255 -> empty word
          break;
       case 5: {   // expansion of the operand bytes, all byte values
          const unsigned n = 1 + b % 24;
@@ -1156,6 +1156,12 @@ void op_ENUM_BASE(World& w, const Op& op)
 const char* World::intern_name(const std::string& s)
 {
    return name_store.insert(s).first->c_str();
+}
+
+const char* World::intern_static(const std::string& s)
+{
+   static std::set<std::string> store;
+   return store.insert(s).first->c_str();
 }
 
 void register_core_ops(std::vector<OpInfo>& t)
